@@ -144,6 +144,40 @@ def gen_tasks(rng, tier):
             tasks.append({"fn": "where", "group": "where_raw", "raw_condition": True, "operands": [{"kind": "array", "dtype": cdt, "shape": [3]}] + branches, "track": rng.random() < 0.7,
                           "spell": rng.choice(["mg", "np"]), "seed": len(tasks)})
         tasks.append({"fn": "T", "group": "shape", "operands": [T(dt, [2, 3])], "track": True, "spell": "method", "seed": len(tasks)})
+    # ---- comparisons and the constant-only ufuncs next to a Python scalar: the scalar is "weak" (it is compared / divided in the tensor's precision).  The values are
+    #      chosen so that the precision matters: float32(0.1) != 0.1
+    near = [0.1, 0.2, 0.30000001192092896]
+    for fn in ("greater", "less", "greater_equal", "less_equal", "equal", "not_equal"):
+        for dt, sc, order, spell in itertools.product(["float16", "float32", "float64", "int8"], [{"kind": "pyfloat", "val": 0.1}, {"kind": "pyint", "val": 0}, {"kind": "npscalar", "dtype": "float64", "val": 0.1}],
+                                                      (0, 1), ("np", "op")):
+            ops = [dict(T(dt, [3]), vals=near), sc]
+            tasks.append({"fn": fn, "group": "compare", "operands": ops[::-1] if order else ops, "track": rng.random() < 0.7, "spell": spell, "seed": len(tasks)})
+    for fn in ("floor_divide", "remainder", "mod", "fmod"):
+        for dt, sc, order in itertools.product(["float16", "float32", "float64", "int8", "uint8", "int64"], [{"kind": "pyfloat", "val": 0.1}, {"kind": "pyint", "val": 3}], (0, 1)):
+            ops = [dict(T(dt, [3], const=True), vals=[7, 8.5, 2] if dt.startswith("float") else [7, 8, 2]), sc]
+            for spell in ("np", "op") if fn == "floor_divide" else ("np",):
+                tasks.append({"fn": fn, "group": "const_only", "operands": ops[::-1] if order else ops, "track": True, "spell": spell, "seed": len(tasks)})
+    # ---- dtype= next to a Python scalar: the scalar is converted to the REQUESTED precision, not rounded to the tensor's first
+    for fn in ("add", "subtract", "multiply", "divide", "maximum", "arctan2", "power"):
+        for dt, sc, order in itertools.product(["float16", "float32", "int8"], [{"kind": "pyfloat", "val": 0.1}, {"kind": "pyint", "val": 3}], (0, 1)):
+            ops = [dict(T(dt, [3]), vals=[0.1, 0.7, 1.3] if dt != "int8" else [1, 2, 3]), sc]
+            for odt in ("float64", "float32"):
+                tasks.append({"fn": fn, "group": "dtype_scalar", "operands": ops[::-1] if order else ops, "opts": {"dtype": odt}, "track": rng.random() < 0.7, "spell": rng.choice(["mg", "np"]), "seed": len(tasks)})
+    # ---- functions that convert every operand to an array first (a Python scalar is then an ordinary float64 / int64 operand)
+    for dt in ("float16", "float32", "int8"):
+        for sc in ({"kind": "pyfloat", "val": 1.5}, {"kind": "pyint", "val": 2}):
+            for order in (0, 1):
+                ops = [T(dt, []), sc]
+                tasks.append({"fn": "stack", "group": "join_scalar", "operands": ops[::-1] if order else ops, "track": rng.random() < 0.7, "spell": rng.choice(["mg", "np"]), "seed": len(tasks)})
+            tasks.append({"fn": "einsum", "group": "join_scalar", "spec": "i,->i", "operands": [T(dt, [3]), sc], "track": True, "spell": rng.choice(["mg", "np"]), "seed": len(tasks)})
+    # ---- joining with axis=None flattens in index order whatever the memory layout
+    for fn, lay1, lay2, dt in itertools.product(("concatenate",), ("C", "F", "T", "strided"), ("C", "F", "T"), ("float32", "float64")):
+        tasks.append({"fn": fn, "group": "join", "operands": [T(dt, [2, 3], lay1), T("float64", [3, 2], lay2)], "opts": {"axis": None}, "track": rng.random() < 0.7, "spell": rng.choice(["mg", "np"]), "seed": len(tasks)})
+    for lay1, lay2, axis in itertools.product(("F", "T", "strided"), ("C", "F"), (0, 1, -1, 2)):
+        for fn in ("concatenate", "stack"):
+            if fn == "concatenate" and axis == 2:
+                continue
+            tasks.append({"fn": fn, "group": "join", "operands": [T("float32", [2, 3], lay1), T("float64", [2, 3], lay2)], "opts": {"axis": axis}, "track": rng.random() < 0.7, "spell": rng.choice(["mg", "np"]), "seed": len(tasks)})
     return tasks
 
 
